@@ -99,6 +99,12 @@ void harness(void) {
     def.entries_per_summary = eps;
     def.summary_decimate_factor = sumdf;
 
+#ifdef MODE_CRASH
+    SYM_U32(adf);
+    SYM_U32(udf);
+    def.annotation_decimate_factor = adf;       /* full 32-bit domain incl. 0 (-> default) and 1 */
+    def.utc_decimate_factor = udf;
+#endif
     int32_t rc = jls_core_signal_def_validate(&def);
     CHECK(rc == 0, "a supported data type validates");
     rc = jls_core_signal_def_align(&def);
@@ -107,6 +113,9 @@ void harness(void) {
      * and either an error code or parameters that satisfy the basic relations */
     if (rc == 0) {
         CHECK(def.sample_decimate_factor >= 10 && def.samples_per_data >= 10, "accepted definition has non-zero factors");
+        /* the annotation/UTC index builder (wr_ts.c) holds decimate_factor entries per level and 15 levels: a factor of 1 overflows its one-entry buffers at close */
+        CHECK(def.annotation_decimate_factor >= 2 && def.utc_decimate_factor >= 2, "accepted definition: annotation/UTC decimate factors are at least 2 (0 takes the default)");
+        CHECK((adf < 2 || def.annotation_decimate_factor == adf) && (udf < 2 || def.utc_decimate_factor == udf), "usable annotation/UTC factors are stored as given");
         CHECK(def.samples_per_data % def.sample_decimate_factor == 0, "accepted definition: block holds whole entries");
     }
 #else
